@@ -542,6 +542,11 @@ func stateFoundObjectKeyBeginAfterNewLine(s *Scanner, c byte) state {
 }
 
 func stateFoundObjectValueBegin(s *Scanner, c byte) state {
+	if s.isCommentStart(c) {
+		s.switchToComment()
+		return scanContinue
+	}
+
 	r := stateBeginValue(s, c)
 	switch r { //nolint:exhaustive // It's okay.
 	case scanBeginLiteral:
@@ -818,6 +823,10 @@ func stateAfterObjectKey(s *Scanner, c byte) state {
 	}
 	if s.isAnnotationStart(c) {
 		s.switchToAnnotation()
+		return scanContinue
+	}
+	if s.isCommentStart(c) {
+		s.switchToComment()
 		return scanContinue
 	}
 
